@@ -66,6 +66,9 @@ impl ISocketConnection for DirectInprocConnection {
           }
         }
 
+        // `send()` consumes the batch even when it does not complete; keep a (ref-counted)
+        // copy so that the refused message can be handed back to the caller.
+        let refused = returned.clone();
         let timeout_dur = self.sndtimeo.unwrap_or(Duration::from_secs(300));
         match tokio::time::timeout(timeout_dur, self.peer_queue_sender.send(returned)).await {
           Ok(Ok(())) => {
@@ -80,8 +83,8 @@ impl ISocketConnection for DirectInprocConnection {
             }
             Ok(())
           }
-          Ok(Err(_)) => Err((FrameBatch::new(), ZmqError::ConnectionClosed)),
-          Err(_) => Err((FrameBatch::new(), ZmqError::Timeout)),
+          Ok(Err(_)) => Err((refused, ZmqError::ConnectionClosed)),
+          Err(_) => Err((refused, ZmqError::Timeout)),
         }
       }
       _ => unreachable!(),
